@@ -1,4 +1,4 @@
-From VV Require Import Model.Base Model.Pattern Model.Gpo Model.Targeton Spec.LiftSpec Proofs.BaseLemmas Proofs.LiftSpecProofs Proofs.GpoRefine Proofs.GpoTop Proofs.GpoNearest.
+From VV Require Import Model.Base Model.Pattern Model.Gpo Model.Targeton Spec.LiftSpec Proofs.BaseLemmas Proofs.LiftSpecProofs Proofs.GpoRefine Proofs.GpoTop Proofs.GpoNearest Proofs.TargetonProofs.
 From VV Require Import Model.LiftTargeton.
 From Coq Require Import Lia ZifyBool.
 
@@ -38,4 +38,26 @@ Proof.
   destruct (deleted vs (re (t_ref c))); [reflexivity|]. cbn [bind].
   destruct (deleted vs (rs (t_r2 c))); [reflexivity|].
   destruct (deleted vs (re (t_r2 c))); [reflexivity|]. exfalso. destruct Hd as [H|[H|[H|H]]]; discriminate.
+Qed.
+
+Lemma ref_to_alt_range_valid g r shrink r' : ref_to_alt_range g r shrink = Ok (Some r') -> range_valid r' = true.
+Proof.
+  unfold ref_to_alt_range. destruct (ref_to_alt_position g (rs r) _) as [[s|]|]; cbn [bind]; try discriminate.
+  destruct (ref_to_alt_position g (re r) _) as [[e|]|]; cbn [bind]; try discriminate.
+  - destruct (e <? s); [discriminate|]. unfold mk_range. destruct ((0 <=? s) && (s <=? e)) eqn:E; cbn [bind]; [|discriminate].
+    intros H. injection H as <-. unfold range_valid. cbn [rs re]. exact E.
+  - destruct shrink; discriminate.
+Qed.
+
+(* the regions of the lifted targeton tile its lifted range: what C18 states of an input row holds of the targeton in background coordinates *)
+Theorem lifted_targeton_tiles g c c' : 0 <= t_e1 c -> 0 <= t_e3 c -> lift_targeton g c = Ok c' ->
+  exists rsl, get_all_regions c' = Ok rsl /\ concat (map positions rsl) = positions (t_ref c') /\ Forall (fun r => range_valid r = true) rsl.
+Proof.
+  intros H1 H3 H. unfold lift_targeton in H.
+  destruct (ref_to_alt_range g (t_ref c) false) as [[r'|]|] eqn:Er; cbn [bind] in H; try discriminate.
+  destruct (ref_to_alt_range g (t_r2 c) false) as [[r2'|]|] eqn:Er2; cbn [bind] in H; try discriminate.
+  destruct (validate (mkT r' r2' (t_e1 c) (t_e3 c))) as [[]|] eqn:Ev; cbn [bind] in H; [|discriminate].
+  injection H as <-. apply regions_tile; cbn [t_ref t_r2 t_e1 t_e3]; try assumption.
+  - eapply ref_to_alt_range_valid; exact Er.
+  - eapply ref_to_alt_range_valid; exact Er2.
 Qed.
